@@ -489,6 +489,7 @@ class BehavioralRTLIRTypeEnforcerL1( bir.BehavioralRTLIRNodeVisitor ):
 
   def enter( s, blk, context, node ):
     s.blk = blk
+    s.top = node
     s.stack = deque([])
     with s.register_context( context ):
       s.visit( node )
@@ -509,6 +510,12 @@ class BehavioralRTLIRTypeEnforcerL1( bir.BehavioralRTLIRNodeVisitor ):
     if not node._is_explicit:
       # assert isinstance(node.Type, rt.Const), f'internal error: {node} is not constant!'
       target_Type = s.get_context(node, descp).get_dtype()
+      # An operand inside the enforced term (e.g. an operand of a constant
+      # expression or a shift amount) may need more bits than the term
+      # itself. Never truncate such an operand.
+      if node is not s.top and isinstance( target_Type, rdt.Vector ) and \
+         target_Type.get_length() < node.Type.get_dtype().get_length():
+        return
       # All RTLIR datatypes are cached -- we don't want to invalidate the cache
       # and therefore a deepcopy is needed here
       node.Type = copy.deepcopy(node.Type)
